@@ -33,8 +33,10 @@ var predeclared = []string{"bool", "int", "int8", "int16", "int32", "int64", "ui
 var special = []string{"error", "any"}
 var named = []string{"L", "dep.T", "otherdep.T", "LG[int]", "dep.G[int]", "dep.G[dep.T]", "dep.G2[string, otherdep.T]", "dep.G[dep.G[int]]", "LG[L]",
 	// a package whose last path element contains a dot (gopkg.in/yaml.v3 style), alone and as a type argument
-	"yaml.Node", "dep.G[yaml.Node]", "LG[yaml.Node]", "dep.G2[yaml.Node, dep.T]"}
-var mapKeys = []string{"string", "int", "L", "dep.T", "[2]int", "dep.K"}
+	"yaml.Node", "dep.G[yaml.Node]", "LG[yaml.Node]", "dep.G2[yaml.Node, dep.T]",
+	// two packages whose directory is a Go keyword (the import name has to be sanitised AND disambiguated)
+	"kwa.Options", "dep.G2[kwa.Options, kwb.Options]", "dep.G[kwb.Options]"}
+var mapKeys = []string{"string", "int", "L", "dep.T", "[2]int", "dep.K", "kwb.Options"}
 
 func atoms(full bool) []string {
 	if full {
@@ -88,7 +90,7 @@ func expressions(c *core.Ctx) []string {
 
 func baseModule(exprs []string) pipe.Tree {
 	var b strings.Builder
-	b.WriteString("package src\n\nimport (\n\t\"" + modPath + "/dep\"\n\totherdep \"" + modPath + "/other/dep\"\n\tyaml \"" + modPath + "/third/yaml.v3\"\n)\n\nvar _ dep.T\nvar _ otherdep.T\nvar _ yaml.Node\n\ntype L struct{ X int }\n\ntype LG[X any] struct{ V X }\n\n")
+	b.WriteString("package src\n\nimport (\n\t\"" + modPath + "/dep\"\n\totherdep \"" + modPath + "/other/dep\"\n\tyaml \"" + modPath + "/third/yaml.v3\"\n\tkwa \"" + modPath + "/conf/default\"\n\tkwb \"" + modPath + "/theme/default\"\n)\n\nvar _ dep.T\nvar _ otherdep.T\nvar _ yaml.Node\nvar _ kwa.Options\nvar _ kwb.Options\n\ntype L struct{ X int }\n\ntype LG[X any] struct{ V X }\n\n")
 	for i, e := range exprs {
 		fmt.Fprintf(&b, "var V_%d %s\n", i, e)
 	}
@@ -98,6 +100,8 @@ func baseModule(exprs []string) pipe.Tree {
 		"other/dep/dep.go":   "package dep\n\ntype T struct{ B string }\n",
 		"z/dep/dep.go":       "package dep\n\ntype Z int\n",
 		"third/yaml.v3/y.go": "package yaml\n\ntype Node struct{ Kind int }\n",
+		"conf/default/o.go":  "package defaults\n\ntype Options struct{ A int }\n",
+		"theme/default/o.go": "package defaults\n\ntype Options struct{ B string }\n",
 		"src/src.go":         b.String(),
 		"tgt/tgt.go":         "package tgt\n",
 		"tgt2/tgt2.go":       "package tgt2\n",
@@ -382,7 +386,7 @@ func checkExprs(c *core.Ctx, exprs []string, withReflect bool) {
 func expectedPaths(e, target string) []string {
 	set := map[string]bool{}
 	// qualifiers as written in package src
-	for q, p := range map[string]string{"otherdep.": modPath + "/other/dep", "dep.": modPath + "/dep", "yaml.": modPath + "/third/yaml.v3"} {
+	for q, p := range map[string]string{"otherdep.": modPath + "/other/dep", "dep.": modPath + "/dep", "yaml.": modPath + "/third/yaml.v3", "kwa.": modPath + "/conf/default", "kwb.": modPath + "/theme/default"} {
 		rest := e
 		if q == "dep." {
 			rest = strings.ReplaceAll(e, "otherdep.", "")
@@ -393,7 +397,7 @@ func expectedPaths(e, target string) []string {
 	}
 	// local types of src: L, LG[...]
 	if target != modPath+"/src" {
-		stripped := strings.NewReplacer("otherdep.", "", "dep.", "", "yaml.", "").Replace(e)
+		stripped := strings.NewReplacer("otherdep.", "", "dep.", "", "yaml.", "", "kwa.", "", "kwb.", "").Replace(e)
 		for _, tok := range strings.FieldsFunc(stripped, func(r rune) bool {
 			return !(r == '_' || r >= 'A' && r <= 'Z' || r >= 'a' && r <= 'z' || r >= '0' && r <= '9')
 		}) {
@@ -419,7 +423,7 @@ func classify(expr, text string) string {
 // reflect.TypeOf of every expression.
 func renderReflect(dir string, exprs []string, ti int) (*rendering, error) {
 	var b strings.Builder
-	b.WriteString("package main\n\nimport (\n\t\"bytes\"\n\t\"encoding/json\"\n\t\"fmt\"\n\t\"os\"\n\t\"reflect\"\n\n\t\"github.com/octohelm/gengo/pkg/gengo\"\n\t\"github.com/octohelm/gengo/pkg/gengo/snippet\"\n\t\"github.com/octohelm/gengo/pkg/namer\"\n\tgengotypes \"github.com/octohelm/gengo/pkg/types\"\n\t. \"" + modPath + "/src\"\n\t\"" + modPath + "/dep\"\n\totherdep \"" + modPath + "/other/dep\"\n\tyaml \"" + modPath + "/third/yaml.v3\"\n)\n\nvar _ dep.T\nvar _ otherdep.T\nvar _ yaml.Node\nvar _ L\n\n")
+	b.WriteString("package main\n\nimport (\n\t\"bytes\"\n\t\"encoding/json\"\n\t\"fmt\"\n\t\"os\"\n\t\"reflect\"\n\n\t\"github.com/octohelm/gengo/pkg/gengo\"\n\t\"github.com/octohelm/gengo/pkg/gengo/snippet\"\n\t\"github.com/octohelm/gengo/pkg/namer\"\n\tgengotypes \"github.com/octohelm/gengo/pkg/types\"\n\t. \"" + modPath + "/src\"\n\t\"" + modPath + "/dep\"\n\totherdep \"" + modPath + "/other/dep\"\n\tyaml \"" + modPath + "/third/yaml.v3\"\n\tkwa \"" + modPath + "/conf/default\"\n\tkwb \"" + modPath + "/theme/default\"\n)\n\nvar _ dep.T\nvar _ otherdep.T\nvar _ yaml.Node\nvar _ kwa.Options\nvar _ kwb.Options\nvar _ L\n\n")
 	b.WriteString("var types = []reflect.Type{\n")
 	for _, e := range exprs {
 		fmt.Fprintf(&b, "\treflect.TypeOf((*%s)(nil)).Elem(),\n", e)
@@ -502,7 +506,7 @@ func replay(c *core.Ctx, raw json.RawMessage) {
 func init() {
 	core.Register(&core.Prop{
 		ID: "C11", Level: "model_checking", Run: run, Replay: replay, Shards: 8,
-		Rule: "every type expression of the grammar: depth 0 = all predeclared types, error, any, local named, foreign named, foreign with a clashing last path segment, foreign from a package whose last path element contains a dot (alone and as a type argument; module mode rejects non-ASCII import paths), generic instantiations with basic/named/nested arguments; depth 1 = every constructor (*, [], [3], chan, map with 6 key types, struct with tagged fields, struct with embedded value and pointer) over all atoms; depth 2 over a reduced atom set (thorough: full depth 2 and depth 3 over a further reduced base); each rendered from its go/types type AND from its reflect type (compiled helper program) into 3 targets (own package, another package, another package whose tracker already holds a clashing name); the texts are written as var declarations with the tracker's imports, the module is type-checked again and types.Identical(original, rendered) is required; every target is rendered a second time in the same process with a fresh tracker and namer and must give the same texts and imports. Non-trivial = composite expressions; states = (source, target, nesting)",
+		Rule: "every type expression of the grammar: depth 0 = all predeclared types, error, any, local named, foreign named, foreign with a clashing last path segment, foreign from a package whose last path element contains a dot (alone and as a type argument; module mode rejects non-ASCII import paths), two foreign packages whose directory name is a Go keyword, generic instantiations with basic/named/nested arguments; depth 1 = every constructor (*, [], [3], chan, map with 6 key types, struct with tagged fields, struct with embedded value and pointer) over all atoms; depth 2 over a reduced atom set (thorough: full depth 2 and depth 3 over a further reduced base); each rendered from its go/types type AND from its reflect type (compiled helper program) into 3 targets (own package, another package, another package whose tracker already holds a clashing name); the texts are written as var declarations with the tracker's imports, the module is type-checked again and types.Identical(original, rendered) is required; every target is rendered a second time in the same process with a fresh tracker and namer and must give the same texts and imports. Non-trivial = composite expressions; states = (source, target, nesting)",
 		Assumptions: []string{
 			"outside the grammar: generic arguments that are pointers/maps/slices, receive/send-only channels, non-empty interface literals, func types",
 		},
